@@ -13,6 +13,22 @@ from . import irkit
 from .common import tname
 
 
+# the only state a text emitter may change: read / declaration counters (ownership and declare-once bookkeeping, C11 / C12)
+EMISSION_FRAME = {"reads", "init_counter", "effect_init_count", "assign_reads", "assign_usage"}
+
+
+def frame_obligation(check, name, pi, p):
+    """emitting text changes nothing but read counters: the text of a node is a function of the node (and of how often it was read),
+    not of which other node was emitted before - the premise of 'both layouts denote the same effect' (C16) and of determinism (C14)"""
+    def allowed(o, f, old, new):
+        if f in EMISSION_FRAME:
+            return True
+        # a register whose access kind is still unknown (explicit register / alias never assigned) becomes a plain source on its first read
+        return f == "access" and getattr(old, "name", None) == "UNKNOWN" and getattr(new, "name", None) == "R"
+    bad = sorted({f"{getattr(o, 'label', None) or o.cls.name}.{f}" for (o, f, old, new) in p.ctx.pre_writes() if not allowed(o, f, old, new)})
+    check.ob(f"{name}#frame: emission writes only read counters", pi, p.ctx.pc, not bad, detail=f"writes {bad}")
+
+
 def as_tpl(v):
     if isinstance(v, str):
         return Tpl([v])
@@ -100,6 +116,7 @@ def run_emission(check: Check, loader, name, inst, build, method="il_exec", repl
                  detail="" if p.outcome == "return" else f"raises {p.value!r}")
         if p.outcome != "return":
             continue
+        frame_obligation(check, name, pi, p)
         tpl = as_tpl(p.value)
         check.ob(f"{name}#returns-text", pi, pc, tpl is not None)
         if tpl is None:
